@@ -213,10 +213,10 @@ def name_program(name, idx):
     h(c, "exec", "store", [("value", g), ("items", T.vec(g))])
     h(c, "exec", "touch", [("flag", T.BOOL)])
     h(c, "query", "load", [("key", T.STRING)], resp=g)
-    h(c, "sudo", "force", [("value", g)])
-    # a kind that mentions only a *path* ending in the parameter's name: its message must stay non-generic
+    # sudo mentions only a *path* ending in the parameter's name: its message must stay non-generic
     named = T.Ty(f"svmon::named::{name}", lambda r, d: {"v": r.randrange(1000)}, "struct")
-    h(c, "sudo", "note", [("tagged", named)]) if idx % 2 else h(c, "exec", "note", [("tagged", named), ("value", g)])
+    h(c, "sudo", "force", [("value", T.U64)])
+    h(c, "sudo", "note", [("tagged", named), ("also", T.option(named))])
     h(c, "migrate", "migrate", [("value", T.tup(g, T.U32))])
     i0 = {"id": "i0", "module": "named_iface", "trait": "NamedIface", "variant": "NamedIface", "handlers": [], "custom_mode": ["assoc", "empty", "fixed"][idx % 3],
           "error": "MonErr", "assoc": [(name, "String")], "assoc_concrete": [(name, "String")]}
